@@ -125,6 +125,15 @@ class CallMixin:
 
     @staticmethod
     def forall_pat(bvs, body, pat):
+        def has_ite(e, seen):
+            if e.get_id() in seen:
+                return False
+            seen.add(e.get_id())
+            if z3.is_app(e) and e.decl().kind() in (z3.Z3_OP_ITE, z3.Z3_OP_AND, z3.Z3_OP_OR, z3.Z3_OP_NOT, z3.Z3_OP_EQ):
+                return True
+            return any(has_ite(c, seen) for c in e.children())
+        if has_ite(pat, set()):
+            return z3.ForAll(bvs, body)        # z3 rejects (and warns about) patterns containing if-then-else / connectives
         try:
             return z3.ForAll(bvs, body, patterns=[pat])
         except z3.Z3Exception:
